@@ -26,7 +26,7 @@ Definition xworker (R F : N) (assigned : list N) : worker :=
 Definition xinst (R F : N) (assigned : list N) (ah al ph : N) (hs : list N) (lq : list (N * list N)) : inst :=
   {| i_nres := 1; i_now := 0;
      i_workers := [xworker R F assigned];
-     i_classes := [ {| rc_entries := [(0, ah)]; rc_min_time := 0 |}; {| rc_entries := [(0, al)]; rc_min_time := 0 |} ];
+     i_classes := [ {| rc_entries := [(0, ah)]; rc_min_time := 0; rc_all := [] |}; {| rc_entries := [(0, al)]; rc_min_time := 0; rc_all := [] |} ];
      i_queues := [ {| q_ready := [(ph, hs)]; q_prefill := None |}; {| q_ready := lq; q_prefill := None |} ] |}.
 
 (** the (priority, size) levels of the low class and the size / limit flag the merge loop ends with *)
@@ -169,7 +169,7 @@ Proof.
   assert (Hc : capable (xinst R F assigned ah al ph hs lq) (xworker R F assigned) 0 = true).
   { change (capable (xinst R F assigned ah al ph hs lq) (xworker R F assigned) 0) with ((ah <=? R) && true).
     destruct (N.leb_spec ah R); [reflexivity|lia]. }
-  rewrite Hc. change (req_of (xinst R F assigned ah al ph hs lq) 0) with [(0, ah)]. change (w_free (xworker R F assigned)) with [F].
+  rewrite Hc. change (task_max_count_cls (w_free (xworker R F assigned)) (class_of (xinst R F assigned ah al ph hs lq) 0)) with (task_max_count [F] [(0, ah)]).
   assert (1 <= task_max_count [F] [(0, ah)]).
   { rewrite tmc1. assert (1 <= F / ah) by (apply N.div_le_lower_bound; lia). unfold SCHED_MAX_TASK_PER_WORKER. lia. }
   destruct (N.ltb_spec 0 (task_max_count [F] [(0, ah)])); lia.
@@ -182,7 +182,7 @@ Proof.
   assert (Hc : capable (xinst R F assigned ah al ph hs lq) (xworker R F assigned) 1 = true).
   { change (capable (xinst R F assigned ah al ph hs lq) (xworker R F assigned) 1) with ((al <=? R) && true).
     destruct (N.leb_spec al R); [reflexivity|lia]. }
-  rewrite Hc. change (req_of (xinst R F assigned ah al ph hs lq) 1) with [(0, al)]. change (w_free (xworker R F assigned)) with [F].
+  rewrite Hc. change (task_max_count_cls (w_free (xworker R F assigned)) (class_of (xinst R F assigned ah al ph hs lq) 1)) with (task_max_count [F] [(0, al)]).
   assert (1 <= task_max_count [F] [(0, al)]).
   { rewrite tmc1. assert (1 <= F / al) by (apply N.div_le_lower_bound; lia). unfold SCHED_MAX_TASK_PER_WORKER. lia. }
   destruct (N.ltb_spec 0 (task_max_count [F] [(0, al)])); lia.
@@ -248,11 +248,13 @@ Proof.
   induction asg as [|rq t IH]; intros x; cbn [remove_assigned].
   - exists x. split; [reflexivity|lia].
   - destruct (rq =? h); [apply IH|].
-    assert (Hr : exists y, rv_remove_multiple [x] (req_of (xinst R F assigned ah al ph hs lq) rq) 1 = Ok [y] /\ y <= x).
-    { unfold req_of, class_of. cbn [xinst i_classes].
-      destruct (N.to_nat rq) as [|[|n]] eqn:E; cbn [nth rc_entries].
-      - rewrite rv1_remove. exists (x - ah * 1). split; [reflexivity|lia].
-      - rewrite rv1_remove. exists (x - al * 1). split; [reflexivity|lia].
+    assert (Hr : exists y, rv_remove_cls [x] (class_of (xinst R F assigned ah al ph hs lq) rq) 1 = Ok [y] /\ y <= x).
+    { unfold class_of. cbn [xinst i_classes].
+      destruct (N.to_nat rq) as [|[|n]] eqn:E; cbn [nth].
+      - change (rv_remove_cls [x] {| rc_entries := [(0, ah)]; rc_min_time := 0; rc_all := [] |} 1) with (rv_remove_multiple [x] [(0, ah)] 1).
+        rewrite rv1_remove. exists (x - ah * 1). split; [reflexivity|lia].
+      - change (rv_remove_cls [x] {| rc_entries := [(0, al)]; rc_min_time := 0; rc_all := [] |} 1) with (rv_remove_multiple [x] [(0, al)] 1).
+        rewrite rv1_remove. exists (x - al * 1). split; [reflexivity|lia].
       - destruct n; cbn; exists x; split; try reflexivity; lia. }
     destruct Hr as (y & Hy & Hle). rewrite Hy. cbn [bind].
     destruct (IH y) as (y' & Hy' & Hle'). exists y'. split; [assumption|lia].
@@ -263,9 +265,11 @@ Lemma xgap : forall R F assigned ah al ph hs lq,
   exists g, gap (xinst R F assigned ah al ph hs lq) (xworker R F assigned) 0 1 = Ok g /\ g * al < ah.
 Proof.
   intros R F assigned ah al ph hs lq Hah Hal Hcap.
-  unfold gap, gap_resources. change (req_of (xinst R F assigned ah al ph hs lq) 0) with [(0, ah)].
-  change (req_of (xinst R F assigned ah al ph hs lq) 1) with [(0, al)].
-  change (w_res (xworker R F assigned)) with [R]. change (w_assigned (xworker R F assigned)) with assigned.
+  unfold gap. change (rc_all (class_of (xinst R F assigned ah al ph hs lq) 0)) with (@nil N). cbv iota.
+  unfold gap_resources. cbv zeta.
+  change (task_max_count_cls (w_res (xworker R F assigned)) (class_of (xinst R F assigned ah al ph hs lq) 0)) with (task_max_count [R] [(0, ah)]).
+  change (rv_remove_cls (w_res (xworker R F assigned)) (class_of (xinst R F assigned ah al ph hs lq) 0)) with (rv_remove_multiple [R] [(0, ah)]).
+  change (w_assigned (xworker R F assigned)) with assigned.
   rewrite rv1_remove. cbn [bind].
   destruct (remove_assigned_x R F assigned ah al ph hs lq (R - ah * task_max_count [R] [(0, ah)]) assigned 0) as (y & Hy & Hle).
   rewrite Hy. cbn [bind]. exists (task_max_count [y] [(0, al)]). split; [reflexivity|].
@@ -483,7 +487,7 @@ Lemma x_worker_entries : worker_entries I [bh; bl] 0 W =
   [EVar (VX 1 0) KNat (z (100 * ah)); EVar (VX 1 1) KNat (z (100 * al));
    ERow {| r_kind := RRes 1 0; r_terms := [(VX 1 0, z ah); (VX 1 1, z al)]; r_le := true; r_bound := z F |}].
 Proof.
-  unfold worker_entries. cbn [map concat]. rewrite x_pk_h, x_pk_l.
+  unfold worker_entries. change (inst_on I W) with I. cbn [map concat]. rewrite x_pk_h, x_pk_l.
   change (b_rq bh) with 0. change (b_rq bl) with 1. change (w_id W) with 1.
   rewrite x_weight_h, x_weight_l.
   change (seqN 0 (N.to_nat (i_nres I))) with [0]. cbn [map concat app].
@@ -578,7 +582,7 @@ Qed.
 Lemma x_fits : forall d (u : dtask), t_prio u = ph -> t_rq u = 0 ->
   fits_without_lower I d W u = true -> (count_on I d 1 0 + 1) * ah <= F.
 Proof.
-  intros d u Hu Hr H. unfold fits_without_lower in H. rewrite (x_keep d u Hu) in H.
+  intros d u Hu Hr H. unfold fits_without_lower in H. change (inst_on I W) with I in H. rewrite (x_keep d u Hu) in H.
   change (w_free W) with [F] in H. rewrite x_sub_all in H. rewrite N2Nat.id in H.
   destruct (N.leb_spec (count_on I d 1 0 * ah) F) as [Hle|]; [|discriminate].
   rewrite Hr in H. change (req_of I 0) with [(0, ah)] in H.
@@ -671,6 +675,7 @@ Proof.
   intros. split.
   - cbn. repeat constructor. intros [].
   - intros c Hc. cbn in Hc. destruct Hc as [<-|[<-|[]]]; split; repeat constructor; cbn; lia.
+  - intros c Hc. cbn in Hc. destruct Hc as [<-|[<-|[]]]; constructor.
 Qed.
 
 (** forward membership of the unbounded aggregate row for the first cut / first blocker *)
@@ -841,7 +846,8 @@ Proof.
   { destruct Hlwf as [_ Hf0]. eapply Forall_impl; [|exact Hf0]. intros e [He _]. exact He. }
   (* 2. ah <= F (u fits), al <= F (t was placed: C05) *)
   assert (HhF : ah <= F).
-  { unfold fits_without_lower in Hfits. destruct (sub_all I (w_free W) _) as [v|] eqn:Es; [|discriminate].
+  { unfold fits_without_lower in Hfits. change (inst_on I W) with I in Hfits.
+    destruct (sub_all I (w_free W) _) as [v|] eqn:Es; [|discriminate].
     pose proof (sub_all_le _ _ _ _ Es 0) as Hle. rewrite Hur in Hfits.
     change (req_of I 0) with [(0, ah)] in Hfits. change (capable_res v [(0, ah)]) with ((ah <=? rv_get v 0) && true) in Hfits.
     change (rv_get (w_free W) 0) with F in Hle. lia. }
